@@ -99,7 +99,17 @@ pub fn gen_c05(args: &Args) {
             custom_angles(&mut r, &mut p);
         }
         p.rnd = r.range(0, 3) as usize;
-        p.pol = if r.chance(1, 2) { 0 } else { 6 };
+        // no policy, the default policy, or any other policy whose unflagged entries are conventional (half-of-night is
+        // exempt from C08's flag clause; minutes-from-maghrib 'invalid' is quantified over angle-based methods)
+        p.pol = match r.range(0, 2) {
+            0 => 0,
+            1 => 6,
+            _ => *r_pick(&mut r, &[1usize, 2, 3, 4, 5, 7, 8, 9, 10, 13, 14]),
+        };
+        if p.pol == 14 && p.ii != 0 {
+            p = P { pol: 14, rnd: p.rnd, ..P::of_method(r.range(1, 6) as usize) };
+        }
+        p.nl = if r.chance(1, 2) { 485_000 } else { r.range(-900_000, 900_000) };
         p.w = rand_weather(&mut r);
         let o = call(&site, date, &p);
         let mut pn = p.clone();
